@@ -1,7 +1,11 @@
 //! C08: drives the real Greedy / Elitism / Rosomaxa populations through the public HeuristicPopulation trait
 //! with an integer-valued solution type and a scripted Random; reports ranked/size/phase/selection after every op.
 use rosomaxa::algorithms::gsom::Input;
+use rosomaxa::evolution::strategies::Iterative;
+use rosomaxa::evolution::{EvolutionSimulator, InitialConfig, InitialOperator, ProcessingConfig};
 use rosomaxa::population::{Alternative, Elitism, Greedy, RosomaxaContext, RosomaxaSolution};
+use rosomaxa::termination::MaxGeneration;
+use rosomaxa::TelemetryHeuristicContext;
 use rosomaxa::prelude::*;
 use rosomaxa::utils::{Parallelism, Timer};
 use serde_json::{json, Value};
@@ -263,12 +267,190 @@ fn run_history(case: &Value) -> Value {
     json!({"trace": trace})
 }
 
+
+// ---------------------------------------------------------------- the real evolution loop, seeded
+type Ctx2 = TelemetryHeuristicContext<Obj, Sol>;
+
+/// offspring of generation g are scripted by the case (independent of the parents); parents are recorded
+struct ScriptedHeuristic {
+    two: bool,
+    offspring: Vec<Value>,
+    generation: usize,
+    parents: Arc<Mutex<Vec<Vec<Value>>>>,
+}
+impl std::fmt::Display for ScriptedHeuristic {
+    fn fmt(&self, f: &mut std::fmt::Formatter<'_>) -> std::fmt::Result {
+        write!(f, "scripted")
+    }
+}
+impl HyperHeuristic for ScriptedHeuristic {
+    type Context = Ctx2;
+    type Objective = Obj;
+    type Solution = Sol;
+    fn search(&mut self, ctx: &Ctx2, solution: &Sol) -> Vec<Sol> {
+        self.search_many(ctx, vec![solution])
+    }
+    fn search_many(&mut self, _: &Ctx2, solutions: Vec<&Sol>) -> Vec<Sol> {
+        self.parents.lock().unwrap().push(solutions.iter().map(|s| pair(s)).collect());
+        let g = self.generation;
+        self.generation += 1;
+        self.offspring.get(g).and_then(|v| v.as_array()).map(|a| a.iter().map(|v| sol_of(v, self.two)).collect()).unwrap_or_default()
+    }
+    fn diversify(&self, _: &Ctx2, _: &Sol) -> Vec<Sol> {
+        vec![]
+    }
+    fn diversify_many(&self, _: &Ctx2, _: Vec<&Sol>) -> Vec<Sol> {
+        vec![]
+    }
+}
+
+struct ScriptedInit {
+    two: bool,
+    created: Mutex<VecDeque<Value>>,
+    log: Arc<Mutex<Vec<Value>>>,
+}
+impl InitialOperator for ScriptedInit {
+    type Context = Ctx2;
+    type Objective = Obj;
+    type Solution = Sol;
+    fn create(&self, _: &Ctx2) -> Sol {
+        let v = self.created.lock().unwrap().pop_front().expect("no scripted solution left to create");
+        let s = sol_of(&v, self.two);
+        self.log.lock().unwrap().push(pair(&s));
+        s
+    }
+}
+
+fn run_evo(case: &Value) -> Value {
+    let two = case["two"].as_bool().unwrap_or(false);
+    let seed = case["seed"].as_u64().unwrap_or(1);
+    let random = Arc::new(ScriptedRandom { script: Mutex::new(Script::default()), stream: Mutex::new(SplitMix(seed)) });
+    let population = make_population(case, random.clone());
+    let env = Arc::new(Environment::new(random, None, Parallelism::new_with_cpus(1), Arc::new(|_: &str| {}), false));
+    let context = TelemetryHeuristicContext::new(Arc::new(Obj), population, TelemetryMode::None, env);
+    let parents = Arc::new(Mutex::new(vec![]));
+    let created_log = Arc::new(Mutex::new(vec![]));
+    let heuristic = ScriptedHeuristic {
+        two,
+        offspring: case["offspring"].as_array().unwrap().clone(),
+        generation: 0,
+        parents: parents.clone(),
+    };
+    let inits: Vec<Sol> = case["inits"].as_array().unwrap().iter().map(|v| sol_of(v, two)).collect();
+    let config = EvolutionConfig {
+        initial: InitialConfig {
+            operators: vec![(
+                Box::new(ScriptedInit {
+                    two,
+                    created: Mutex::new(case["created"].as_array().unwrap().iter().cloned().collect()),
+                    log: created_log.clone(),
+                }),
+                1,
+            )],
+            max_size: usize_of(&case["max_init"]),
+            quota: 1.,
+            individuals: inits,
+        },
+        processing: ProcessingConfig { context: vec![], solution: vec![] },
+        context,
+        strategy: Box::new(Iterative::new(Box::new(heuristic), usize_of(&case["want"]))),
+        termination: Box::new(MaxGeneration::new(usize_of(&case["gens"]))),
+    };
+    let (solutions, _) = EvolutionSimulator::new(config).expect("config").run().expect("evolution failed");
+    let result: Vec<Value> = solutions.iter().map(pair).collect();
+    let parents = parents.lock().unwrap().clone();
+    let created = created_log.lock().unwrap().clone();
+    json!({"result": result, "parents": parents, "created": created})
+}
+
+// ---------------------------------------------------------------- end to end: vrp-core Solver seeded through the pragmatic initial-solution reader
+mod e2e {
+    use super::*;
+    use std::io::{BufReader, BufWriter};
+    use vrp_core::construction::heuristics::InsertionContext;
+    use vrp_core::models::GoalContext;
+    use vrp_core::solver::{create_elitism_population, RefinementContext, Solver, TargetPopulation, VrpConfigBuilder};
+    use vrp_pragmatic::format::problem::PragmaticProblem;
+    use vrp_pragmatic::format::solution::{read_init_solution, write_pragmatic, PragmaticOutputType};
+
+    fn fitness_of(goal: &GoalContext, ctx: &InsertionContext) -> Vec<Value> {
+        goal.fitness(ctx).map(|f| if f.fract() == 0. && f.abs() < 1e15 { json!(f as i64) } else { json!(f.to_string()) }).collect()
+    }
+
+    pub fn run_solve(case: &Value) -> Value {
+        let problem = Arc::new(
+            (case["problem"].as_str().unwrap().to_string(), vec![case["matrix"].as_str().unwrap().to_string()])
+                .read_pragmatic()
+                .unwrap_or_else(|e| panic!("cannot read problem: {e}")),
+        );
+        let env = Arc::new(Environment::new(
+            Arc::new(DefaultRandom::new_repeatable()),
+            None,
+            Parallelism::new_with_cpus(2),
+            Arc::new(|_: &str| {}),
+            false,
+        ));
+        // 1. a good solution from an unseeded run
+        let config = VrpConfigBuilder::new(problem.clone())
+            .set_environment(env.clone())
+            .set_telemetry_mode(TelemetryMode::None)
+            .prebuild()
+            .unwrap()
+            .with_max_generations(Some(usize_of(&case["gens0"])))
+            .build()
+            .unwrap();
+        let s0 = Solver::new(problem.clone(), config).solve().expect("unseeded solve failed");
+        // 2. through the pragmatic writer and the initial-solution reader
+        let mut buf = Vec::new();
+        {
+            let mut w = BufWriter::new(&mut buf);
+            write_pragmatic(&problem, &s0, PragmaticOutputType::default(), &mut w).expect("cannot write solution");
+        }
+        let read = read_init_solution(BufReader::new(buf.as_slice()), problem.clone(), env.random.clone())
+            .expect("cannot read initial solution");
+        let s0_ctx = InsertionContext::new_from_solution(problem.clone(), (s0, None), env.clone());
+        let init_ctx = InsertionContext::new_from_solution(problem.clone(), (read, None), env.clone());
+        // 3. seeded solve with few generations
+        let population: TargetPopulation = match case["pop"].as_str().unwrap_or("default") {
+            "greedy" => Box::new(Greedy::new(problem.goal.clone(), 1, None)),
+            "elitism" => Box::new(create_elitism_population(problem.goal.clone(), env.clone())),
+            _ => rosomaxa::get_default_population(
+                problem.goal.clone(),
+                vrp_core::models::common::Footprint::new(problem.as_ref()),
+                env.clone(),
+                usize_of(&case["sel"]),
+            ),
+        };
+        let config = VrpConfigBuilder::new(problem.clone())
+            .set_environment(env.clone())
+            .set_telemetry_mode(TelemetryMode::None)
+            .prebuild()
+            .unwrap()
+            .with_init_solutions(vec![init_ctx.deep_copy()], Some(usize_of(&case["init_size"])))
+            .with_max_generations(Some(usize_of(&case["gens"])))
+            .with_context(RefinementContext::new(problem.clone(), population, TelemetryMode::None, env.clone()))
+            .build()
+            .unwrap();
+        let result = Solver::new(problem.clone(), config).solve().expect("seeded solve failed");
+        let result_ctx = InsertionContext::new_from_solution(problem.clone(), (result, None), env.clone());
+        let goal = problem.goal.as_ref();
+        json!({
+            "result_vs_given": ord_of(goal.total_order(&result_ctx, &s0_ctx)),
+            "result_vs_read": ord_of(goal.total_order(&result_ctx, &init_ctx)),
+            "read_vs_given": ord_of(goal.total_order(&init_ctx, &s0_ctx)),
+            "fit_given": fitness_of(goal, &s0_ctx), "fit_read": fitness_of(goal, &init_ctx), "fit_result": fitness_of(goal, &result_ctx),
+        })
+    }
+}
+
 pub fn run_case(case: &Value) -> Value {
     match case["kind"].as_str().unwrap() {
+        "solve" => e2e::run_solve(case),
         _ => {
             // a fresh thread per case: the crate's repeatable RNG (get_rng) is thread-local, so every case starts from the same state
             let c = case.clone();
-            match std::thread::spawn(move || run_history(&c)).join() {
+            let evo = case["evo"].as_bool().unwrap_or(false);
+            match std::thread::spawn(move || if evo { run_evo(&c) } else { run_history(&c) }).join() {
                 Ok(v) => v,
                 Err(e) => {
                     let msg = e
